@@ -10,6 +10,8 @@ PROP = {
         # race detector: its verdict counts for C05, its coverage counters stay with C09
         {"name": "stats", "pkg": "internal/stats", "files": ["stats/c09_seq_test.go", "stats/c09_conc_test.go"],
          "tests": [("TestVFC09Concurrent", (25, 120))], "shards": (2, 16)},
+        {"name": "querylog", "pkg": "internal/querylog", "files": ["querylog/c05_qlog_test.go"],
+         "tests": [("TestVFC05QueryLogPrograms", (60, 300))], "shards": (2, 16)},
     ],
     "level": "exploration",
     "technique": "generated concurrent programs (rapid) executed under the Go race detector with halt_on_error; "
